@@ -662,10 +662,13 @@ def c10b_archetype_clone_copies_all_parts(prog):
                 ok = len(a_) >= 4 and fld_of(vals[0], me, 'components') and fld_of(a_[1], me, 'length') and fld_of(vals[2], src, 'components') and fld_of(a_[3], src, 'length')
                 if not ok:
                     once2('components', 'clone_from_components is not given (self.components, self.length, source.components, source.length)')
-            copies = p.calls(lambda e: e['name'] in ('clone_from', 'clone', 'extend_from_slice', 'to_vec') and any(fld_of(x, src, 'entity_identifiers') for x in list(e['args']) + list(e['vals'])))
-            if not copies:
-                once2('entity-identifiers', 'the source\'s identifier column is not copied')
             wb = [e for e in p.events if e['k'] == 'store' and pathsem.is_field_of(e['loc'], 'archetype::Archetype', fi['entity_identifiers']) and pathsem.mentions(e['loc'], lambda w: w == me)]
+            # a copy is any call that is handed both the source's identifier column and this archetype's (clone_from,
+            # clone_into, extend_from_slice, copy_from_slice ...), or a write-back of something made from the source's
+            copies = [e for e in p.calls(lambda e: True)
+                      if any(fld_of(x, src, 'entity_identifiers') for x in list(e['args']) + list(e['vals'])) and any(fld_of(x, me, 'entity_identifiers') for x in list(e['args']) + list(e['vals']))]
+            if not copies and not any(fld_of(e['value'], src, 'entity_identifiers') for e in wb):
+                once2('entity-identifiers', 'the source\'s identifier column is not copied')
             if not wb:
                 once2('entity-identifiers', 'the identifier column\'s (pointer, capacity) are not written back after the copy')
     return r
